@@ -8,6 +8,7 @@ from coqrun import coq_list, coq_option, ni, pb
 from gen import prims, pyref
 from gen.util import rbytes, short
 
+DRIVERS = ['C12']
 NEEDS = dict(cli=True, harness=True, shim=True, release=True)
 RULE = ("`new -n L` for every L in 0..40 under the shim with scripted entropy (all-zero, all-ones, counter, alternating, random "
         "patterns): the printed phrase must be the BIP-39 encoding of exactly the scripted bytes and the request log must show one "
